@@ -907,6 +907,7 @@ func c19Chan(r *Run) {
 	c19ChanCancelledRead(r)
 	c19ChanObs(r)
 	c19ChanSecondWriter(r)
+	c19ChanClosed(r)
 }
 
 // ---------------------------------------------------------------------------
@@ -1440,6 +1441,7 @@ func c19HttpShapes(r *Run) {
 
 func c19HttpCtx(r *Run) {
 	c19HttpCtxRetry(r)
+	c19HttpLostResponse(r)
 	node := c19NewNode(c19IdentityMapper)
 	defer node.Close()
 	rw := node.goh.NewConnection("idle-peer")
